@@ -1,4 +1,12 @@
-(* C15 — No response can crash the client.  PARTIAL: the model starts at decoded blocks. *)
+(* C15 — No response can crash the client.
+   Two layers.  The first eight theorems are about coq/Client.v, the model of client.Execute's reply
+   handling on the DECODED view of a reply (status, "is the first root a present, decodable message",
+   report).  The C15_bytes_* theorems below are about coq/MessageBytes.v, which starts at the reply's
+   BYTES: car.Decode (Car.v) + blockstore.NewBlockReader (Blockstore.v) + message.NewMessage with the
+   typed dag-cbor decoding of the root block (Cbor.v's decoder without basicnode's duplicate-key check,
+   then bindnode's acceptance of the AgentMessage schema) + block.Decode's integrity check, for ARBITRARY
+   byte strings; C15_bytes_refines ties the two layers for every body.  The sha2-256 digest and
+   go-ipld-cbor's verdict on a non-canonical CAR header are parameters (universally quantified). *)
 From Ucanto Require Import Base Client.
 From Ucanto Require Sig.
 
@@ -47,3 +55,205 @@ Theorem C15_signature_total : forall s : bstr,
   exists n r, Sig.sig_size s = Ret n /\ Sig.sig_raw s = Ret r.
 Proof. exact Sig.sig_total. Qed.
 Print Assumptions C15_signature_total.
+
+(* ================================================================================================ *)
+(* byte level                                                                                        *)
+From Ucanto Require Import Varint Ipld Cbor Formats Blockstore MessageFormat Cid Car BaseEnc DagJson MessageBytes.
+
+(* whatever the status and whatever the bytes of the body: an error value or a response object *)
+Theorem C15_bytes_total : forall mh_digest hdr_oracle (status : Z) (body : bstr),
+  client_execute_bytes mh_digest hdr_oracle status body = BError \/
+  exists d, client_execute_bytes mh_digest hdr_oracle status body = BResponse d.
+Proof. exact client_execute_bytes_total. Qed.
+Print Assumptions C15_bytes_total.
+
+(* any non-200 reply is an error, whatever its body *)
+Theorem C15_bytes_non_200 : forall mh_digest hdr_oracle (status : Z) (body : bstr),
+  status <> 200%Z -> client_execute_bytes mh_digest hdr_oracle status body = BError.
+Proof. exact client_bytes_non_200. Qed.
+Print Assumptions C15_bytes_non_200.
+
+(* a body that response.Decode refuses (garbage, a damaged CAR, a CAR without a message) is an error,
+   never a response object *)
+Theorem C15_bytes_garbage : forall mh_digest hdr_oracle (status : Z) (body : bstr),
+  decode_message mh_digest hdr_oracle body = None ->
+  client_execute_bytes mh_digest hdr_oracle status body = BError.
+Proof. exact client_bytes_garbage. Qed.
+Print Assumptions C15_bytes_garbage.
+
+(* a response object exists only for status 200 and a body that decodes, and it is that message *)
+Theorem C15_bytes_response_inv : forall mh_digest hdr_oracle (status : Z) (body : bstr) d,
+  client_execute_bytes mh_digest hdr_oracle status body = BResponse d ->
+  status = 200%Z /\ decode_message mh_digest hdr_oracle body = Some d.
+Proof. exact client_bytes_response_inv. Qed.
+Print Assumptions C15_bytes_response_inv.
+
+(* what "decodes" means, for every byte string: the CAR header is readable with version 1, EVERY section
+   is intact (nothing is skipped), the FIRST root has a block (first occurrence wins), that block is an
+   AgentMessage, and its link is the dag-cbor / sha2-256 CIDv1 of its bytes *)
+Theorem C15_bytes_decodes_inv : forall mh_digest hdr_oracle (body : bstr) d,
+  decode_message mh_digest hdr_oracle body = Some d ->
+  exists roots blocks data,
+    car_decode mh_digest true hdr_oracle body = (HdrOk (d_root d :: roots), map item_of_block blocks)
+    /\ d_store d = tbl_of blocks
+    /\ tbl_get (d_store d) (d_root d) = Some data
+    /\ message_decode_typed data = Some (d_msg d)
+    /\ root_integrity mh_digest (d_root d) data = true.
+Proof. exact decode_message_inv. Qed.
+Print Assumptions C15_bytes_decodes_inv.
+
+(* every block the response hands out matches its CID *)
+Theorem C15_bytes_integrity : forall mh_digest hdr_oracle (body : bstr) d c data,
+  decode_message mh_digest hdr_oracle body = Some d -> tbl_get (d_store d) c = Some data ->
+  cid_sum mh_digest (cid_prefix c) data = Some c.
+Proof. exact decode_message_integrity. Qed.
+Print Assumptions C15_bytes_integrity.
+
+(* round trip: the bytes car.Encode writes for a message (root block = block.Encode of the message,
+   anywhere among the blocks, repeated blocks allowed) decode to that message (report in canonical key
+   order), with the block table in first-occurrence order *)
+Theorem C15_bytes_roundtrip : forall mh_digest hdr_oracle m root blocks,
+  wf_ipld (message_ipld m) = true -> in_budget (message_ipld m) = true ->
+  roots_ok 1 [root] -> Forall (block_ok mh_digest) blocks ->
+  tbl_get (tbl_of blocks) root = Some (message_bytes m) ->
+  msg_root_ok mh_digest root (message_bytes m) ->
+  decode_message mh_digest hdr_oracle (car_encode [root] blocks)
+  = Some (mkDecoded root (canon_msg m) (run_puts bstr bstr beq blocks)).
+Proof. exact decode_message_roundtrip. Qed.
+Print Assumptions C15_bytes_roundtrip.
+
+Theorem C15_bytes_execute_roundtrip : forall mh_digest hdr_oracle m root blocks,
+  wf_ipld (message_ipld m) = true -> in_budget (message_ipld m) = true ->
+  roots_ok 1 [root] -> Forall (block_ok mh_digest) blocks ->
+  tbl_get (tbl_of blocks) root = Some (message_bytes m) ->
+  msg_root_ok mh_digest root (message_bytes m) ->
+  client_execute_bytes mh_digest hdr_oracle 200 (car_encode [root] blocks)
+  = BResponse (mkDecoded root (canon_msg m) (run_puts bstr bstr beq blocks)).
+Proof. exact client_bytes_roundtrip. Qed.
+Print Assumptions C15_bytes_execute_roundtrip.
+
+(* the typed decoding of the root block accepts everything the dag-cbor decoder of Cbor.v accepts, with
+   the same value (it only lacks basicnode's duplicate-key refusal, which bindnode does not have) *)
+Theorem C15_bytes_decoder_extends : forall (b : bstr) v,
+  cbor_decode_all b = Some v -> cbor_decode_all_t b = Some v.
+Proof. exact cbor_decode_all_t_of_checked. Qed.
+Print Assumptions C15_bytes_decoder_extends.
+
+(* refinement: for EVERY status and body the byte-level client is Client.v's client_execute on the decoded
+   view of that body, so C15_execute_total / C15_non_200 / ... speak about bytes *)
+Theorem C15_bytes_refines : forall mh_digest hdr_oracle (kid lid : bstr -> N) (status : Z) (body : bstr),
+  abs_result kid lid (client_execute_bytes mh_digest hdr_oracle status body)
+  = Client.client_execute status (view_is_message mh_digest hdr_oracle body)
+                          (view_report mh_digest hdr_oracle kid lid body).
+Proof. exact client_bytes_refines. Qed.
+Print Assumptions C15_bytes_refines.
+
+(* ... and message.Get on the decoded message is Client.v's get under the key of the link's STRING,
+   for every injective numbering of key strings (one exists: C15_bytes_numbering) *)
+Theorem C15_bytes_get_refines : forall (kid lid : bstr -> N),
+  (forall a b, kid a = kid b -> a = b) ->
+  forall m l, exists o, get_bytes m l = Ret o /\
+                        Client.get (abs_report kid lid m) (kid (cid_string l)) = Ret (option_map lid o).
+Proof. exact get_bytes_refines. Qed.
+Print Assumptions C15_bytes_get_refines.
+
+Theorem C15_bytes_numbering : forall a b : bstr, bstr_code a = bstr_code b -> a = b.
+Proof. exact bstr_code_inj. Qed.
+Print Assumptions C15_bytes_numbering.
+
+(* for replies built from a message: exactly Client.v on that message's report *)
+Theorem C15_bytes_refines_roundtrip : forall mh_digest hdr_oracle (kid lid : bstr -> N) m root blocks,
+  wf_ipld (message_ipld m) = true -> in_budget (message_ipld m) = true ->
+  roots_ok 1 [root] -> Forall (block_ok mh_digest) blocks ->
+  tbl_get (tbl_of blocks) root = Some (message_bytes m) ->
+  msg_root_ok mh_digest root (message_bytes m) ->
+  abs_result kid lid (client_execute_bytes mh_digest hdr_oracle 200 (car_encode [root] blocks))
+  = Client.client_execute 200 true (abs_report kid lid (canon_msg m)).
+Proof. exact client_bytes_refines_roundtrip. Qed.
+Print Assumptions C15_bytes_refines_roundtrip.
+
+(* every lookup on every decoded message returns a value — absent report, empty report, foreign keys,
+   repeated keys, keys that are not UTF-8 — and so does Receipts *)
+Theorem C15_bytes_get_total : forall (m : amsg) (l : bstr), exists r, get_bytes m l = Ret r.
+Proof. exact get_bytes_total. Qed.
+Print Assumptions C15_bytes_get_total.
+
+Theorem C15_bytes_receipts_total : forall m : amsg, exists r, receipts_bytes m = Ret r.
+Proof. exact receipts_bytes_total. Qed.
+Print Assumptions C15_bytes_receipts_total.
+
+(* the reply to an empty batch, as bytes: a well-formed reply whose message has no report is a response,
+   and it answers EVERY lookup with "not found" and lists no receipts *)
+Theorem C15_bytes_empty_batch : forall mh_digest hdr_oracle m root blocks,
+  wf_ipld (message_ipld m) = true -> in_budget (message_ipld m) = true ->
+  roots_ok 1 [root] -> Forall (block_ok mh_digest) blocks ->
+  tbl_get (tbl_of blocks) root = Some (message_bytes m) ->
+  msg_root_ok mh_digest root (message_bytes m) ->
+  m_report m = None ->
+  exists d, client_execute_bytes mh_digest hdr_oracle 200 (car_encode [root] blocks) = BResponse d /\
+            (forall l, get_bytes (d_msg d) l = Ret None) /\ receipts_bytes (d_msg d) = Ret [].
+Proof. exact client_bytes_no_report. Qed.
+Print Assumptions C15_bytes_empty_batch.
+
+(* a lookup finds a receipt only in an entry keyed by that link's own string; distinct links have
+   distinct strings (no oracle: DagJson.cid_string_inj) *)
+Theorem C15_bytes_get_some : forall (m : amsg) (l v : bstr),
+  get_bytes m l = Ret (Some v) -> exists es, m_report m = Some es /\ In (cid_string l, v) es.
+Proof. exact get_bytes_some. Qed.
+Print Assumptions C15_bytes_get_some.
+
+Theorem C15_bytes_key_of_link : forall l l' : bstr,
+  bytes_lt l -> bytes_lt l' -> cid_string l = cid_string l' -> l = l'.
+Proof. exact get_bytes_key_of_link. Qed.
+Print Assumptions C15_bytes_key_of_link.
+
+(* failures, on archives of well-formed blocks: one damaged section anywhere, a cut inside a section,
+   no roots, a first root without a block — each is an error of the stated class, never a response *)
+Theorem C15_bytes_bad_block : forall mh_digest hdr_oracle roots bs1 c d' bs2,
+  roots_ok 1 roots -> Forall (block_ok mh_digest) bs1 -> Forall (block_ok mh_digest) bs2 ->
+  cid_wf c -> N.of_nat (length (c ++ d')) <= max_section ->
+  cid_sum mh_digest (cid_prefix c) d' <> Some c ->
+  decode_message_r mh_digest hdr_oracle (car_encode roots bs1 ++ section (c, d') ++ flat_map section bs2)
+  = inr FBlock.
+Proof. exact decode_message_bad_block. Qed.
+Print Assumptions C15_bytes_bad_block.
+
+Theorem C15_bytes_truncated : forall mh_digest hdr_oracle roots bs1 b p q,
+  roots_ok 1 roots -> Forall (block_ok mh_digest) bs1 -> block_ok mh_digest b ->
+  section b = p ++ q -> p <> [] -> q <> [] ->
+  decode_message_r mh_digest hdr_oracle (car_encode roots bs1 ++ p) = inr FBlock.
+Proof. exact decode_message_truncated. Qed.
+Print Assumptions C15_bytes_truncated.
+
+Theorem C15_bytes_no_roots : forall mh_digest hdr_oracle blocks,
+  roots_ok 1 [] -> Forall (block_ok mh_digest) blocks ->
+  decode_message_r mh_digest hdr_oracle (car_encode [] blocks) = inr FNoRoots.
+Proof. exact decode_message_no_roots. Qed.
+Print Assumptions C15_bytes_no_roots.
+
+Theorem C15_bytes_root_missing : forall mh_digest hdr_oracle root roots blocks,
+  roots_ok 1 (root :: roots) -> Forall (block_ok mh_digest) blocks -> ~ In root (map fst blocks) ->
+  decode_message_r mh_digest hdr_oracle (car_encode (root :: roots) blocks) = inr FRootMissing.
+Proof. exact decode_message_root_missing. Qed.
+Print Assumptions C15_bytes_root_missing.
+
+(* further roots are ignored: only the first one is looked at *)
+Theorem C15_bytes_more_roots : forall mh_digest hdr_oracle m root roots blocks,
+  wf_ipld (message_ipld m) = true -> in_budget (message_ipld m) = true ->
+  roots_ok 1 (root :: roots) -> Forall (block_ok mh_digest) blocks ->
+  tbl_get (tbl_of blocks) root = Some (message_bytes m) ->
+  msg_root_ok mh_digest root (message_bytes m) ->
+  decode_message mh_digest hdr_oracle (car_encode (root :: roots) blocks)
+  = Some (mkDecoded root (canon_msg m) (run_puts bstr bstr beq blocks)).
+Proof. exact decode_message_more_roots. Qed.
+Print Assumptions C15_bytes_more_roots.
+
+(* the hypotheses of the round-trip theorems are satisfiable (toy digest; Example ex_hyps, ex_decisions and
+   ex_repeated_key in MessageBytes.v evaluate the decision logic on concrete bodies) *)
+Theorem C15_bytes_hyps_satisfiable :
+  wf_ipld (message_ipld ex_msg) = true /\ in_budget (message_ipld ex_msg) = true /\
+  roots_ok 1 [ex_root] /\ Forall (block_ok toy_digest) ex_mblocks /\
+  tbl_get (tbl_of ex_mblocks) ex_root = Some (message_bytes ex_msg) /\
+  msg_root_ok toy_digest ex_root (message_bytes ex_msg).
+Proof. exact ex_hyps. Qed.
+Print Assumptions C15_bytes_hyps_satisfiable.
